@@ -58,9 +58,10 @@ D2 == {v \in Conts(Inner, {}) : v.es # <<>>}                      \* one contain
        \cup {Node(k, "", <<a, c>>) : k \in {"list", "tuple"}, a \in PairCoreQ, c \in {x \in Inner : Len(x.es) = 1 /\ x.k \in {"list", "dict"}}}
 Values == Atoms \cup D1 \cup D2
 
-(* C20 positions: bound variable and field of a watched object for every value; module global *)
-(* and class-static field for depth <= 1 with at most one element                             *)
-PosOf(v) == IF v \in Atoms \/ (v \in D1 /\ Len(v.es) <= 1) THEN Positions ELSE {"var", "field"}
+(* C20 positions: field of a watched object for every value; bound variable, module global and  *)
+(* class-static field for atoms and containers with at most one element (a builtin container   *)
+(* bound to a variable gets no assertion at all)                                               *)
+PosOf(v) == IF v \in Atoms \/ (v \in D1 /\ Len(v.es) <= 1) THEN Positions ELSE {"field"}
 
 (* ---------------- literal generation / mutation draws ---------------- *)
 ReqTypes == {"bool", "int", "float", "complex", "str", "bytes", "list", "tuple", "set", "dict"}
